@@ -213,8 +213,16 @@ void PolarGrid::initializeLineSplitting(std::optional<double> splitting_radius)
         if (number_smoother_circles_ < 3 && nr() > 5)
             number_smoother_circles_ = 3;
 
-        length_smoother_radial_    = nr() - number_smoother_circles_;
-        smoother_splitting_radius_ = radius(number_smoother_circles_);
+        if (number_smoother_circles_ >= nr()) {
+            /* Fewer than three radii: only circular indexing is possible (as for an explicit radius >= Rmax). */
+            number_smoother_circles_   = nr();
+            length_smoother_radial_    = 0;
+            smoother_splitting_radius_ = radii_.back() + 1.0;
+        }
+        else {
+            length_smoother_radial_    = nr() - number_smoother_circles_;
+            smoother_splitting_radius_ = radius(number_smoother_circles_);
+        }
     }
 
     number_circular_smoother_nodes_ = number_smoother_circles_ * ntheta();
